@@ -189,6 +189,9 @@ impl<L: Language, N: Analysis<L>> EGraph<L, N> {
         let psn = self.classes[&i].nodes[&sh].clone();
         let node = sh.apply_slotmap(&psn.elem);
         self.raw_remove_from_class(i, sh.clone());
+        // An e-node that refers to its own class was queued again by `update_analysis` if it improved the class.
+        // It is about to be re-added under its canonical shape, which takes that entry over.
+        let requeued = self.pending.remove(&sh);
         let app_i = self.mk_sem_identity_applied_id(i);
 
         let enode = &node;
@@ -226,6 +229,10 @@ impl<L: Language, N: Analysis<L>> EGraph<L, N> {
         let bij = bij.compose(&m);
         let t = (sh, bij);
         self.raw_add_to_class(i.id, t.clone(), src_id);
+        if let Some(pending_ty) = requeued {
+            let v = self.pending.entry(t.0.clone()).or_insert(pending_ty);
+            *v = v.merge(pending_ty);
+        }
 
         self.determine_self_symmetries(src_id);
     }
